@@ -23,6 +23,7 @@ EXPLANATION = (
     "to the consumer; (WRAP) Take/Enumerate/Map/Limit consumers return the inner send/progress/flush result unchanged (Take may only "
     "replace it by Break). In-flight futures are owned by the consumer inside the operation's own future (C02.OWN), hence dropped "
     "no later than it.")
+EXPLANATION += (' (GROUP) premise re-checked here: the FutureGroup holding the work futures registers every pushed future completely, polls every armed member, yields each result exactly once and reports None only when empty.')
 ASSUMPTIONS = [
     "futures_buffered::FuturesUnordered yields every completed future's output exactly once",
     "Try::branch / from_residual / from_output of the user's result type behave per core::ops::Try",
